@@ -83,7 +83,7 @@ class C15(Prop):
     RULE = ("documents with distinct keys over an alphabet including '', '/', '~', '~0', '~1', '01', '-', digits, and arrays of up to 64 elements; "
             "pointer strings: (a) the true pointer of a drawn node, (b) that pointer with one edit (character replaced/inserted/deleted from "
             "{/ ~ 0-9 : A a - + space e .}, leading zero, ~0<->~1<->~2<->~, trailing '/', leading '/' removed, digits appended up to 2^64+k, "
-            "case flipped), (c) free strings over {/,~,0,1,digits,letters,-}, (d) for arrays (up to 260 elements) EVERY single-byte token and a third of all digit+byte / byte+digit tokens, (e) single-child chains 998..3000 deep built through the API (lookup and construction at several depths), (f) object chains in which one member's constant key IS the memory of the pointer string from some token on, (g) a reference container over a stand-alone item appended to a quarter of the documents. Oracle: GetPointerCaseSensitive returns exactly the node (by "
+            "case flipped), (c) free strings over {/,~,0,1,digits,letters,-}, (d) for arrays (up to 260 elements) EVERY single-byte token and a third of all digit+byte / byte+digit tokens, (e) single-child chains 998..3000 deep built through the API (lookup and construction at several depths), (f) object chains in which one member's constant key IS the memory of the pointer string from some token on, (g) a reference container over a stand-alone item appended to a quarter of the documents, (h) an object with every byte value 1..255 as a one-byte name and names mixing bytes >= 0x80 with / and ~, (i) sibling names that are beginnings of one another (longer ones first) with containers below. Oracle: GetPointerCaseSensitive returns exactly the node (by "
             "position) the RFC 6901 reference resolver designates, else NULL. For EVERY (root or inner container, node) pair of each "
             "document FindPointerFromObjectTo equals the reference-escaped pointer, resolves back to the node and is released with "
             "cJSON_free. non-trivial = (doc, pointer) with >= 2 tokens, an escape, or an array index >= 10; distinct by hash")
